@@ -1,7 +1,6 @@
 package ledger
 
 import (
-	"errors"
 	"fmt"
 	"strings"
 
@@ -212,7 +211,7 @@ func (h volumesResourceHandler) Project(
 }
 
 func (h volumesResourceHandler) Expand(_ common.ResourceQuery[ledger.GetVolumesOptions], property string) (*bun.SelectQuery, *common.JoinCondition, error) {
-	return nil, nil, errors.New("no expansion available")
+	return nil, nil, common.NewErrInvalidQuery("no expansion available")
 }
 
 var _ common.RepositoryHandler[ledger.GetVolumesOptions] = volumesResourceHandler{}
